@@ -143,6 +143,8 @@ func implFn(progs ...string) string {
 			logged = append(logged, fnTok(call.Argument(0)))
 			return call.Argument(0)
 		})
+		// a host function that reports the This value it was called with
+		vm.Set("__hostThis", hostThis)
 		// a host function that re-enters the VM through the Go API
 		vm.Set("hostCall", func(call otto.FunctionCall) otto.Value {
 			r, e := call.Otto.Call(call.Argument(0).String(), nil)
@@ -172,6 +174,7 @@ func implFn(progs ...string) string {
 				// Scripts run on another runtime first must not change what they do here
 				o2 := otto.New()
 				o2.Set("log", func(call otto.FunctionCall) otto.Value { return call.Argument(0) })
+				o2.Set("__hostThis", hostThis)
 				o2.Set("hostCall", func(call otto.FunctionCall) otto.Value {
 					r, _ := call.Otto.Call(call.Argument(0).String(), nil)
 					return r
@@ -233,6 +236,29 @@ func implFn(progs ...string) string {
 		}
 	}
 	return first
+}
+
+func hostThis(call otto.FunctionCall) otto.Value {
+	t := call.This
+	var s string
+	switch {
+	case t.IsUndefined():
+		s = "undefined"
+	case t.IsNull():
+		s = "null"
+	case t.IsString():
+		s = "string:" + t.String()
+	case t.IsNumber():
+		s = "number:" + t.String()
+	case t.IsBoolean():
+		s = "boolean:" + t.String()
+	case t.IsFunction():
+		s = "function"
+	default:
+		s = "object"
+	}
+	r, _ := otto.ToValue(s)
+	return r
 }
 
 func fnTok(v otto.Value) string {
